@@ -18,28 +18,50 @@ def fresh_id():
     return next(_ids)
 
 
+_INTERN = {}
+
+
+def _ikey(a):
+    # python numbers of different types compare equal (True == 1 == Fraction(1)): keep them apart
+    if isinstance(a, tuple):
+        return tuple(_ikey(x) for x in a)
+    if isinstance(a, (bool, int, float, Fraction)):
+        return (type(a).__name__, a)
+    return a
+
+
 class Term:
+    """hash-consed: structurally equal terms are one object, so equality and hashing are O(1)
+    (deep structural comparison of DAGs with shared sub-terms is exponential)"""
+
     __slots__ = ("op", "args", "_h")
 
+    def __new__(cls, op, *args):
+        try:
+            key = (op, tuple(_ikey(a) for a in args))
+            t = _INTERN.get(key)
+        except TypeError:
+            key, t = None, None
+        if t is None:
+            t = object.__new__(cls)
+            t.op = op
+            t.args = args
+            t._h = hash(key) if key is not None else id(t)
+            if key is not None:
+                _INTERN[key] = t
+        return t
+
     def __init__(self, op, *args):
-        self.op = op
-        self.args = args
-        self._h = None
+        pass
 
     def __hash__(self):
-        if self._h is None:
-            self._h = hash((self.op, self.args))
         return self._h
 
     def __eq__(self, other):
-        if self is other:
-            return True
-        return (
-            isinstance(other, Term)
-            and self.op == other.op
-            and hash(self) == hash(other)
-            and self.args == other.args
-        )
+        return self is other
+
+    def __reduce__(self):
+        return (Term, (self.op,) + tuple(self.args))
 
     def __ne__(self, other):
         return not self.__eq__(other)
